@@ -60,7 +60,7 @@ PROPS['C02'] = dict(level='proof', steps=[V('stream'), V('reader'), E3('c02-read
                 title='Well-formed PDFs from any producer load to their content',
                 technique='Verus contracts on the non-nom decoders (PNG predictors, ASCII85, startxref search, cross-reference stream decoding against a specification written from ISO 32000-1 7.5.8); reference writer x enumerated syntactic choices through the real loader for the nom grammar',
                 text='structural-stream decoding (Flate predictor 10-15 geometry and PNG reconstruction, ASCII85) and startxref discovery are proved for all inputs, and decode_xref_stream is proved to return exactly the entries that ISO 32000-1 7.5.8.2/3 define for every /W, /Index, /Size and data (rows of any type take their full width, types other than 1 and 2 leave no entry) (Verus); the lexical and cross-reference-table grammar (nom) is compared with an independent reference writer over every combination of a bounded set of syntactic choices.',
-                note='the nom grammar itself is outside both verifiers: bounded stand-in; flate2 assumed')
+                note='the nom grammar itself is outside both verifiers: bounded stand-in; flate2 assumed; known finding K-C02-1 (an unescaped CR / CR LF inside a literal string is kept as written)')
 
 PROPS['C06'] = dict(level='proof', steps=[V('keys'), V('crypt'), K('kani_permission_word'), E3('c06-interop')],
                 title='Standard security handler agrees with ISO 32000 algorithms',
@@ -78,13 +78,13 @@ PROPS['C10'] = dict(level='other', steps=[E3('c10-renumber')],
                 title='Renumbering objects preserves the document graph',
                 technique='bounded-exhaustive executable contract: 14 page-tree templates x all id permutations x 3 id sets x starts x bookmark sets, and every reference graph over <= 3 objects with dangling ids, 5 container kinds and 4 trailer shapes, against an independent renaming-discovery oracle',
                 text='bounded stand-in: renumber_objects_with is BTreeMap/closure code over the whole Document and outside the verifiers\' subset; the postcondition of the property (consecutive numbers, max_id, a one-to-one renaming under which trailer, objects and bookmark targets are equal, dangling stays dangling, page order) is evaluated on every enumerated document.',
-                note='bounded; start = 0 and start + n > u32::MAX are recorded as known findings (outside the domain of the function)')
+                note='bounded; start = 0, object number 0 in use and start + n > u32::MAX are recorded as known findings K-C10-1..4 (outside the domain of the function)')
 
 PROPS['C11'] = dict(level='other', steps=[V('ids'), E3('c11-edits')],
                 title='Editing operations keep the document sound',
                 technique='bounded-exhaustive executable contracts: every call sequence of length <= 2 (thorough <= 3/4) over 38-54 editing calls on 14 start states, checked against an independent abstract model after every step',
                 text='bounded stand-in only: the editing functions are iterator/closure graph code outside the verifiers\' subset (DESIGN 5, C11); every step of every enumerated sequence is checked against observers written from the property statement. Only the id-allocation kernel is under contract (Verus unit ids: new_object_id / add_object / set_object keep `no object number above max_id` and hand out numbers no object carries).',
-                note='bounded; three known findings recorded in known_findings.json; precondition max_id < u32::MAX on id allocation')
+                note='bounded; the three findings once recorded for C11 are repaired (a485a2f, acbdf8a, d625e0c); precondition max_id < u32::MAX on id allocation')
 
 PROPS['C12'] = dict(level='proof', steps=[V('pages'), E3('c12-pages')],
                 title='Page enumeration is the depth-first order of the page tree',
@@ -102,7 +102,7 @@ PROPS['C05'] = dict(level='proof', steps=[V('crypt'), E3('c05-encrypt')],
                 title='Encrypt then decrypt restores every string and stream',
                 technique='Verus contracts: RC4 against its definition + involution lemma, PKCS#5 pad/unpad inverse; bounded cross product of handlers x filters x passwords x documents through encrypt / decrypt / save / load',
                 text='the cipher kernels written in the crate are proved for all inputs: Rc4::new is the KSA, apply_keystream/encrypt/decrypt are the PRGA XOR and decrypt(encrypt(x)) = x; Pkcs5 raw_pad / unpad are inverse (Verus). Filter selection, key derivation, password authentication and the document walk are covered by the bounded family only.',
-                note='aes/cbc/md-5/sha2/rand assumed; encrypt_object/decrypt_object and Document::{encrypt,decrypt} are closure/iterator code not under contract')
+                note='aes/cbc/md-5/sha2/rand assumed; encrypt_object/decrypt_object and Document::{encrypt,decrypt} are closure/iterator code not under contract; known finding K-C05-1 (a removed member of an unpacked object stream comes back after encrypt + in-memory decrypt)')
 
 PROPS['C13'] = dict(level='other', steps=[V('pages'), V('resources'), V('deref'), E3('c13-queries')],
                 title='Read-only queries are total on arbitrary object graphs',
